@@ -7,7 +7,11 @@ open MevCommit MevCommit.Nonce Driver
 
 def faultOf : String → Fault
   | "estimate" => .estimate | "tip" => .tip | "price" => .price | "sign" => .sign
-  | "submit" => .submit | _ => .none
+  | "submit" => .submit
+  -- the submission call fails with the caller's context error (deadline / cancellation while the
+  -- request was in flight) and the node never saw the transaction: a failed submission like any other
+  | "submit-deadline" => .submit | "submit-canceled" => .submit | "submit-transport" => .submit
+  | _ => .none
 
 def optNat (j : Json) (k : String) : Option Nat :=
   if jhas j k then some (jnat j k) else none
@@ -38,7 +42,8 @@ def evOf (j : Json) : Option Ev :=
   | _ => none
 
 def handle (inp impl : Json) : CaseResult :=
-  let ops := ((jarr inp "ops").map opOf).toList
+  -- a monitor round whose confirmed-nonce query failed is no operation of the allocator at all
+  let ops := (((jarr inp "ops").toList.filter (fun j => jstr j "t" != "monitor-fails")).map opOf)
   let m := run init ops
   let evs := (jarr impl "events").toList.map evOf
   let wellFormed := evs.all Option.isSome
